@@ -19,9 +19,46 @@ def _const_u(P, path):
     return int(k["int"]) if k and "int" in k else None
 
 
+def _r5_debt(ctx):
+    """a charge is carried in full: deplete stores (level at the current time) + ceil(cost / rate) and nothing else — no min/clamp
+    that would forgive what concurrent grants overdrew (the limiter checks under a read lock and charges under a write lock, so
+    overdraft is normal and the bound burst + rate*time relies on it being remembered)"""
+    P = ctx.P
+    fns = [f for f in P.bodies if "dns::bucket::GenericTokenBucket" in f and f.rsplit("::", 1)[-1].startswith("deplete")]
+    if not fns:
+        if ctx.config in ("default", "dns"):
+            ctx.bad("R5", "anchor:deplete", "", "token bucket charge function not found")
+        return
+    for f in fns:
+        b = P.bodies[f]
+        ctx.saw(b)
+        T = terms(P, b)
+        n = 0
+        for bb, idx, st in b.stmts():
+            if len(st["p"]) >= 2 and st["p"][-1] == ".0" and "rv" in st:
+                n += 1
+                v = norm(T.rvalue(st["rv"], bb, idx))
+                if v[0] == "field" and v[2] == "0":
+                    v = norm(v[1])
+                good = False
+                if v[0] == "bin" and v[1].startswith("Add"):
+                    x, y = norm(v[2]), norm(v[3])
+                    lvl = [z for z in (x, y) if z[0] == "call" and str(z[1]).rsplit("::", 1)[-1].startswith("get_tokens")]
+                    cost = [z for z in (x, y) if z[0] == "call" and str(z[1]).rsplit("::", 1)[-1] == "div_ceil" and norm(z[2][0]) == ("param", 2)]
+                    good = bool(lvl) and bool(cost)
+                if v[0] == "call" and str(v[1]).rsplit("::", 1)[-1] == "saturating_add":
+                    x, y = norm(v[2][0]), norm(v[2][1])
+                    good = any(z[0] == "call" and "get_tokens" in str(z[1]) for z in (x, y)) and any(z[0] == "call" and str(z[1]).endswith("div_ceil") for z in (x, y))
+                ctx.check(good, "R5", "charge-is-carried-in-full", ctx.where(b, st["sp"]),
+                          "deplete must store get_tokens() + tokens.div_ceil(TOKENS_PER_SECOND); it stores %s — a clamp here forgives overdraft, "
+                          "and N racing replies then cost one" % show(v)[:120])
+        ctx.floor("R5", "stores of the bucket level in deplete", n, 1)
+
+
 def run(ctx):
     P = ctx.P
     cg = callgraph(P)
+    _r5_debt(ctx)
     sr = "erbium::dns::DnsListenerHandler::should_ratelimit"
     if sr not in P.bodies:
         ctx.bad("R1", "anchor", "", "rate-limit decision function not found")
